@@ -101,7 +101,11 @@ impl CargoTomlParser {
         // Platform-specific dependencies live in [target.<cfg>.dependencies] (and
         // .dev-dependencies / .build-dependencies): the last component names the section
         let section = match name.strip_prefix("target.") {
-            Some(rest) => rest.rsplit_once('.').map_or(rest, |(_, last)| last),
+            // [target.dependencies] has no <cfg> component: it is not a dependency table
+            Some(rest) => match rest.rsplit_once('.') {
+                Some((_, last)) => last,
+                None => return,
+            },
             None => name.as_str(),
         };
 
